@@ -23,6 +23,10 @@ LEVEL_A = [
     dict(key='ident-noparts', feats=['ident-noparts'], allow=['str-quote', 'str-bs', 'str-nl', 'alias-dotted'],
          what='a double-quoted name made of dots only (MindsDB: "." used as alias or name) becomes an Identifier with no parts, which prints '
               'as nothing: SELECT a "." prints `SELECT a AS `', site='ast/select/identifier.py path_str_to_parts / Identifier.__init__'),
+    dict(key='alias-dotted', feats=['alias-dotted'], allow=[],
+         what='an alias with several parts: `( query ) a.b` / `( query ) a.*` is accepted (from_table_aliased assigns the alias after '
+              'construction, so the one-part check of ASTNode.__init__ is bypassed) and prints `AS a.b`, which is a syntax error',
+         site='from_table_aliased rule of the three parsers; ast/base.py ASTNode.__init__'),
     dict(key='ident-bq', feats=['ident-bq'], allow=['str-quote', 'str-bs', 'str-nl'],
          what='an identifier part that contains a back-quote has no printable form (KF-C04-7). It arises from `( query ) AS `name``: the rule '
               '`LPAREN query RPAREN AS id` builds Identifier(parts=[p.id]) from the raw token and keeps its back-quotes, so '
@@ -36,9 +40,9 @@ LEVEL_A = [
               '(`a=Identifier:<a>`, `Object(type=...)`): CREATE KNOWLEDGE_BASE a USING a = a, UPDATE AGENT/SKILL/CHATBOT ... SET a = a, '
               'CREATE ML_ENGINE ... USING a = a', site='dialects/mindsdb/{agents,skills,chatbot,knowledge_base,create_ml_engine}.py get_string'),
     dict(key='prints-None', feats=['prints-None'], allow=[],
-         what='an absent value is printed as the Python word None (CREATE AGENT a USING a = 1 prints `USING model=None, a=1`; NULL inside '
-              'USING values prints None; SHOW ENGINE prints `SHOW ENGINE None`), which re-parses as an identifier / not at all',
-         site='dialects/mindsdb/agents.py CreateAgent.get_string (model), parameter dict printing, ast/show.py', fix='fixes/C01_2.diff (CreateAgent model)'),
+         what='an absent value is printed as the Python word None (NULL inside USING / SET values prints None; SHOW ENGINE prints '
+              '`SHOW ENGINE None`), which re-parses as an identifier / not at all (the CREATE AGENT `model=None` case was repaired in 8cbc399)',
+         site='parameter dict printing of dialects/mindsdb/*.py (repr of values), ast/show.py'),
     dict(key='interval', feats=['interval'], allow=['str-quote', 'str-bs', 'str-nl'],
          what="INTERVAL with a quoted amount that contains a blank / unit is re-split on printing: INTERVAL 'a b' a prints INTERVAL 'a' b a",
          site='ast/select/operation.py Interval'),
@@ -63,7 +67,7 @@ WITNESS = {
     'param': ('sqlite', 'SELECT ?'), 'ident-empty': ('mindsdb', 'DROP AGENT a . ""'),
     'col-quoted': ('sqlite', 'INSERT INTO a ( `a b` ) VALUES ( 1 )'), 'ident-noparts': ('mindsdb', 'SELECT a "."'),
     'ident-bq': ('mindsdb', 'SELECT * FROM ( SELECT 1 ) AS `alter`'), 'var-quoted': ('mindsdb', 'SELECT @`a b`'),
-    'prints-repr': ('mindsdb', 'UPDATE SKILL a SET a = a'), 'prints-None': ('mindsdb', 'CREATE AGENT a USING a = 1'),
+    'prints-repr': ('mindsdb', 'UPDATE SKILL a SET a = a'), 'prints-None': ('mindsdb', 'SHOW ENGINE'),
     'interval': ('mindsdb', "SELECT INTERVAL 'a b' a"), 'offset-bare': ('mysql', '( select a ) OFFSET 1'),
     'string-escapes': ('mysql', 'SELECT "it\'s"'), 'string-backslash': ('mindsdb', "SELECT '\\\\'"),
     'float-exp': ('sqlite', 'SELECT 0.00001'),
@@ -71,6 +75,15 @@ WITNESS = {
 # further minimised inputs seen in earlier searches (kept so that their classes stay listed)
 EXTRA = [('mindsdb', 'SELECT a "."'), ('mindsdb', 'CREATE AGENT a USING a = 1'), ('mindsdb', "select @'a b'"),
          ('mysql', 'SELECT a "a`a"'), ('sqlite', 'INSERT INTO a ( `B""` ) VALUES ( 1 )')]
+
+
+FIXED = {'KF-C01-1': 'fa4fc42', 'KF-C01-6': '6a738d8'}
+FIXED_NEW = [dict(property='C01', status='fixed', commit='8cbc399',
+                  what='fixed: property=C01 8cbc399 CREATE AGENT without a model printed `USING model=None, ...`, which was read back as the '
+                       'identifier None (print-unstable): CREATE AGENT a USING a = 1',
+                  site='dialects/mindsdb/agents.py CreateAgent.get_string', **{'class': 'CreateAgent whose model is absent'},
+                  signatures=[dict(kind='print-unstable', exc='', root='*', feats=['prints-None'], allow=[])],
+                  witness=dict(dialect='mindsdb', sql='CREATE AGENT a USING a = 1', printed='CREATE AGENT a USING model=None, a=1'))]
 
 
 def main():
@@ -169,9 +182,39 @@ def main():
             site='get_string / grammar rule of %s' % root,
             **{'class': 'root statement class %s with exactly the listed (failure kind, features, set root attributes) combinations' % root},
             signatures=sigs, witness=dict(dialect=e0['dialect'], sql=e0['shrunk'], printed=e0.get('printed'))))
+    # ---- stable ids: an entry keeps the id of the merged entry with the same `class` text; repaired ones become `fixed`
+    merged = [k for k in json.load(open(os.path.join(ROOT, 'known_findings.json')))['findings'] if k['property'] == 'C01']
+    by_class = {k['class']: k for k in merged}
+    used = set()
+    nxt = max([int(k['id'].split('-')[-1]) for k in merged] + [0])
+    for k in out:
+        old = by_class.get(k['class'])
+        if old is not None:
+            k['id'] = old['id']
+            used.add(old['id'])
+        else:
+            nxt += 1
+            k['id'] = 'KF-C01-%d' % nxt
+    for old in merged:
+        if old['id'] not in used and old.get('status') == 'open':
+            w = old['witness']
+            r = rt.oracle(w['dialect'], w['sql'])
+            if r is None or r == 'ok' or not rt.kf_match(old, rt.describe(w['dialect'], w['sql'], w['sql'], r)):
+                c = FIXED.get(old['id'], '?')
+                out.append(dict(old, status='fixed', commit=c, what='fixed: property=C01 %s %s' % (c, old['what'])))
+    for extra in FIXED_NEW:
+        nxt += 1
+        out.append(dict(extra, id='KF-C01-%d' % nxt))
+    full = out
+    same = lambda a, b: all(a.get(f) == b.get(f) for f in ('status', 'what', 'signatures', 'witness', 'class', 'site'))
+    old_by_id = {k['id']: k for k in merged}
+    out = [k for k in full if k['id'] not in old_by_id or not same(k, old_by_id[k['id']])]
+    print('entries total', len(full), 'changed/new', [k['id'] for k in out])
     # every witness must be matched by its own entry
     bad = 0
     for k in out:
+        if k.get('status') != 'open':
+            continue
         w = k['witness']
         r = rt.oracle(w['dialect'], w['sql'])
         ok = r is not None and r != 'ok' and rt.kf_match(k, rt.describe(w['dialect'], w['sql'], w['sql'], r))
